@@ -26,6 +26,8 @@ pub enum Kind {
     Crash(usize),
     /// malformed message followed by a crash right after it
     MutThenCrash { msg: usize, m: MsgMut },
+    /// the message is delivered twice (every later receive on that pair is shifted by one)
+    Duplicate { msg: usize },
     /// the commitment is recomputed for a malformed opening: (commit msg, bytes), (open msg, bytes)
     Chain { commit: usize, commit_bytes: Arc<Vec<u8>>, open: usize, open_bytes: Arc<Vec<u8>>, what: String },
 }
@@ -102,6 +104,17 @@ pub fn build_cases(tier: Tier, cfgs: &[Config]) -> Result<Vec<Case>, String> {
         for k in 0..=sent.len() {
             cases.push(Case { cfg: ci, kind: Kind::Crash(k) });
         }
+        {
+            // duplicated messages: every message in thorough, the first two occurrences per (label, recipient) in quick
+            let mut seen: std::collections::HashMap<(String, usize), usize> = Default::default();
+            for (mi, m) in &sent {
+                let o = seen.entry((m.label.clone(), m.to)).or_insert(0);
+                *o += 1;
+                if tier.is_thorough() || *o <= 2 {
+                    cases.push(Case { cfg: ci, kind: Kind::Duplicate { msg: *mi } });
+                }
+            }
+        }
         // commit to a malformed aShare decommitment: cm = blake3(dm') sent in 'fashare comm', dm' in 'fashare ver'
         for (oi, om) in sent.iter().filter(|(_, m)| m.label == "fashare ver") {
             let Some((cmi, cm)) = sent.iter().find(|(_, m)| m.label == "fashare comm" && m.to == om.to && m.ord == om.ord) else { continue };
@@ -145,6 +158,10 @@ fn describe(cfgs: &[Config], c: &Case) -> (String, String, String) {
             (mr.label.clone(), format!("{}{extra}", m.class), format!("{}: message {:?} #{} {}->{}: {}{extra}", cfg.name, mr.label, mr.ord, mr.from, mr.to, m.detail))
         }
         Kind::Crash(k) => ("-".into(), "crash".into(), format!("{}: corrupted party stops after its message #{k}", cfg.name)),
+        Kind::Duplicate { msg } => {
+            let mr = &cfg.honest.msgs[*msg];
+            (mr.label.clone(), "duplicate".into(), format!("{}: message {:?} #{} {}->{} is delivered twice", cfg.name, mr.label, mr.ord, mr.from, mr.to))
+        }
         Kind::Chain { open, what, .. } => {
             let mr = &cfg.honest.msgs[*open];
             (mr.label.clone(), "chain:commit+malformed_open".into(), format!("{}: {:?} #{} {}->{}: {what}", cfg.name, mr.label, mr.ord, mr.from, mr.to))
@@ -167,6 +184,10 @@ pub fn run_one(cfgs: &[Config], c: &Case) -> Value {
         }
         Kind::Crash(k) => {
             ec.crash_after[cfg.corrupted] = Some(*k);
+        }
+        Kind::Duplicate { msg } => {
+            let mr = &cfg.honest.msgs[*msg];
+            ec.faults.push(crate::exec::Fault { party: mr.from, dir: crate::exec::Dir::Send, peer: mr.to, label: mr.label.clone(), ord: mr.ord, mutation: crate::exec::Mutation::Duplicate });
         }
         Kind::Chain { commit, commit_bytes, open, open_bytes, .. } => {
             ec.faults.push(send_fault(&cfg.honest.msgs[*commit], commit_bytes.clone()));
